@@ -1,4 +1,4 @@
-import Revm.Proofs.InspectorWrapTop
+import Revm.Proofs.InspectorWrapEx
 import Revm.Gen.Tables
 /-! C28 — observing inspectors do not change execution.
 
@@ -300,5 +300,69 @@ theorem tracer_invisible_optimism {ops : EnvOps T} {io : InterpOps T} {dep : T.E
     (fuel : Nat) (inp : FirstInput T) (e : T.E) (w : WState T Tracer) :
     dropW ((wrap ops (tracer3155 T ops) m).exec fuel inp (e, w)) = m.exec fuel inp e :=
   inspected_eq_plain_mod (tracer_observing T ops) ops m (optimism_respects hm) fuel inp e w
+
+/-! ## The condition on the handlers is necessary for GasInspector / the tracer -/
+
+/-- COUNTEREXAMPLE to the unconditional statement for `GasInspector`: on the machine `leaky` (first call halts
+with `InvalidJump` and 40 gas left; its `last_frame_return` keeps the first frame's gas record) the plain run
+reports 40 gas remaining, the run inspected by `GasInspector` reports 0. The mainnet `last_frame_return`
+overwrites the record, which is why the real EVM does not show this. -/
+theorem gas_inspector_visible_to_gas_reading_consumer :
+    Proofs.InspectorWrap.leaky.exec 1 (.call ()) () =
+      some (.ok (.call { result := Proofs.InspectorWrap.haltResult, memoryOffset := (0, 0) }, ())) ∧
+    dropW ((wrap Proofs.InspectorWrap.unitOps (gasInspector Proofs.InspectorWrap.unitTy) Proofs.InspectorWrap.leaky).exec
+        1 (.call ()) ((), Proofs.InspectorWrap.emptyW GasInsp.default)) =
+      some (.ok (.call { result := { Proofs.InspectorWrap.haltResult with
+                                      gas := { limit := 100, remaining := 0, refunded := 0 } },
+                         memoryOffset := (0, 0) }, ())) :=
+  ⟨rfl, rfl⟩
+
+/-- the same transaction on the machine with the mainnet consumers: both runs report the same -/
+theorem gas_inspector_invisible_on_mainnet_like :
+    dropW ((wrap Proofs.InspectorWrap.unitOps (gasInspector Proofs.InspectorWrap.unitTy)
+        Proofs.InspectorWrap.mainnetLike).exec 1 (.call ()) ((), Proofs.InspectorWrap.emptyW GasInsp.default)) =
+      Proofs.InspectorWrap.mainnetLike.exec 1 (.call ()) () :=
+  gas_inspector_invisible_because_error_gas_unread Proofs.InspectorWrap.mainnetLike_consumers 1 (.call ()) ()
+    (Proofs.InspectorWrap.emptyW GasInsp.default)
+
+/-! ## The hypotheses are satisfiable (non-vacuity) -/
+
+section Examples
+local notation "uTy" => Proofs.InspectorWrap.unitTy
+local notation "uOps" => Proofs.InspectorWrap.unitOps
+local notation "uIo" => Proofs.InspectorWrap.unitIo
+local notation "uState" => Proofs.InspectorWrap.unitState
+local notation "uMachine" => Proofs.InspectorWrap.mainnetLike
+local notation "uConsumers" => Proofs.InspectorWrap.mainnetLike_consumers
+local notation "uHalt" => Proofs.InspectorWrap.haltResult
+
+-- `Observing` (both relations), `Respects`, `MainnetConsumers` have instances
+example : Observing (noop uTy) ORel.eq := noop_observing uTy
+example : Observing (gasInspector uTy) ORel.errGas := gas_inspector_observing uTy
+example : Observing (tracer3155 uTy uOps) ORel.errGas := tracer_observing uTy uOps
+example : MainnetConsumers uOps uIo uMachine := uConsumers
+example : Respects uMachine ORel.errGas := mainnet_respects uConsumers
+-- a running interpreter whose pointer was advanced
+example : ({ uState with ip := 1 } : IState uTy).instructionResult = .Continue ∧
+    1 ≤ ({ uState with ip := 1 } : IState uTy).ip := ⟨rfl, Nat.le_refl 1⟩
+-- a halted interpreter
+example : ({ uState with instructionResult := .Stop } : IState uTy).instructionResult ≠ .Continue := by decide
+-- a wrapper state with a pending call input
+example : ({ obs := (), callStack := [()], createStack := [], eofStack := [] } : WState uTy Unit).callStack = () :: [] := rfl
+-- an `errGas`-related pair of DISTINCT outcomes
+example : ORel.errGas.call { result := uHalt, memoryOffset := (0, 0) }
+    { result := { uHalt with gas := { limit := 100, remaining := 0, refunded := 0 } }, memoryOffset := (0, 0) } :=
+  ⟨rfl, rfl, rfl, fun h => absurd h (by decide)⟩
+-- runs that really execute: a create frame that runs one instruction and halts, plain and inspected by the tracer
+example : Machine.exec uMachine 5 (.create ()) () =
+    some (Res.ok (.create
+      { result := { result := .InvalidJump, output := [], gas := { limit := 100000, remaining := 0, refunded := 0 } },
+        address := none }, ())) := rfl
+example : dropW ((wrap uOps (tracer3155 uTy uOps) uMachine).exec 5 (.create ()) ((), Proofs.InspectorWrap.emptyW Tracer.new)) =
+    Machine.exec uMachine 5 (.create ()) () :=
+  tracer_invisible_because_error_gas_unread uConsumers 5 (.create ()) () (Proofs.InspectorWrap.emptyW Tracer.new)
+-- a list with a last element
+example : ([1, 2, 3] : List Nat).length = 2 + 1 := rfl
+end Examples
 
 end Revm.Props.C28
